@@ -95,6 +95,7 @@ func propC07(w *World, r *Report) {
 	br := newBoundsRun(w)
 	br.covPairs = pairs
 	r.Note("coverage/array pairs used by apply methods: %d", len(pairs))
+	r.Conds["gpos4-markcov-reconciled"] = condGpos4Reconciled(w)
 	RunCovArray(w, r, br, pairs)
 	// the truncation branch of the pairing (array = array[:len(cov)]) is
 	// only sound for dense tables: distinct glyph ids, indices 0..len-1
